@@ -117,7 +117,11 @@ func c12(ctx *Ctx) {
 		}
 		ref := resultKey(canon[0])
 		if resultKey(canon[1]) != ref || !sameTrace(canon[0].Trace, canon[1].Trace) {
-			harnessFail("scenario %s: the canonical schedule is not reproducible (uncontrolled nondeterminism)", sc.name)
+			// every map iteration is under the scheduler's control, so a difference between two runs of the same schedule is
+			// nondeterminism from another source (time, randomness, addresses): that is a violation of the property itself
+			ctx.Run.Violation("nondeterministic-under-fixed-schedule", fmt.Sprintf("C12/%s: two runs with the same (canonical) map-iteration schedule differ: %s", sc.name, firstDiffLine(ref, resultKey(canon[1]))),
+				map[string]any{"kind": "schedule", "files": sc.files, "args": sc.args, "cfg": sc.cfg, "schedule": []int{}, "first": ref, "second": resultKey(canon[1])})
+			continue
 		}
 		states++
 		transitions += 2
@@ -172,7 +176,9 @@ func c12(ctx *Ctx) {
 					c := gc
 					again, _ := ctx.Pool.RunAll([]genlab.Job{{Op: "gen", Case: &c, KeepOutputs: true, UseSchedule: true, Schedule: s}})
 					if len(again) == 1 && resultKey(again[0]) != got {
-						harnessFail("scenario %s schedule %v does not reproduce", sc.name, s)
+						ctx.Run.Violation("nondeterministic-under-fixed-schedule", fmt.Sprintf("C12/%s: two runs with the same map-iteration schedule %v differ", sc.name, s),
+							map[string]any{"kind": "schedule", "files": sc.files, "args": sc.args, "cfg": sc.cfg, "schedule": s, "first": got, "second": resultKey(again[0])})
+						continue
 					}
 					pt := "?"
 					if j := len(s) - 1; j >= 0 && j < len(r.Trace) {
@@ -292,7 +298,9 @@ func c12CLI(ctx *Ctx, sc c12Scenario, states, transitions, validated *int) {
 			if got != ref {
 				again, _, _ := run(s)
 				if again != got {
-					harnessFail("CLI scenario %s schedule %v does not reproduce", sc.name, s)
+					ctx.Run.Violation("nondeterministic-under-fixed-schedule", fmt.Sprintf("C12/%s: two CLI runs with the same map-iteration schedule %v differ", sc.name, s),
+						map[string]any{"kind": "schedule-cli", "files": sc.files, "args": append(sc.cfg.Flags(), sc.args...), "schedule": s, "first": got, "second": again})
+					continue
 				}
 				ctx.Run.Violation("schedule-cli:"+tr[i].Site, fmt.Sprintf("C12/%s: in the CLI, map-iteration schedule %v (deviation at %s, n=%d, order #%d) changes what is written: %s", sc.name, s, tr[i].Site, tr[i].N, alt, firstDiffLine(ref, got)),
 					map[string]any{"kind": "schedule-cli", "files": sc.files, "args": append(sc.cfg.Flags(), sc.args...), "schedule": s, "canonical": ref, "result": got})
